@@ -276,8 +276,9 @@ def derived_rules(eng, res, rule="R-MEMO", only_classes=None) -> int:
 POSITIVE = (
     "import functools\n\n\n"
     "class Box:\n"
-    "    def __init__(self, m):\n        self._m = m\n        self._k = 1\n\n"
+    "    def __init__(self, m):\n        self._m = m\n        self._k = 1\n        self._n = len(self._m)\n        self._k2 = self._k + 1\n\n"
     "    def grow(self, m):\n        self._m = m\n\n"
+    "    def size(self):\n        return self._n + self._k2\n\n"
     "    @functools.cached_property\n    def weight(self):\n        return len(self._m)\n\n"
     "    @functools.cached_property\n    def kind(self):\n        return self._k + 1\n\n\n"
     "@functools.lru_cache(maxsize=None)\ndef make_box(text):\n    return Box(text)\n"
@@ -285,7 +286,8 @@ POSITIVE = (
 
 
 def positive_example_fires() -> bool:
-    """built-in example: `weight` (reads re-assigned state) and `make_box` (hands out a changing object) are flagged, `kind` is not"""
+    """built-in example: `weight` (reads re-assigned state), `make_box` (hands out a changing object) and the constructor-derived
+    field `_n` (computed from `_m`, which `grow` re-assigns without re-computing it) are flagged; `kind` and `_k2` are not"""
     import os
     import shutil
     import tempfile
@@ -305,6 +307,7 @@ def positive_example_fires() -> bool:
         r = Result("C10")
         memo_rules(eng, r)
         v = {o.role: o.ok for o in r.obligations}
-        return v.get("stale:Box.weight") is False and v.get("stale:Box.kind") is True and v.get("shared:make_box:Box") is False
+        return (v.get("stale:Box.weight") is False and v.get("stale:Box.kind") is True and v.get("shared:make_box:Box") is False
+                and v.get("derived:Box._n") is False and "derived:Box._k2" not in v)
     finally:
         shutil.rmtree(tmp, ignore_errors=True)
